@@ -33,8 +33,8 @@ pub fn init() {
 
 pub fn pool_engine() -> PoolHist {
     PoolHist {
-        name: "fuzz-pool-backing",
-        mon: Mon { c01: true, c20: true, ..Mon::default() },
+        name: "fuzz-pool-history",
+        mon: Mon { c01: true, c02: true, c03: true, c04: true, c12: true, c16: true, c20: true },
         weights: Weights { roundtrip: 0, create: 2, provide: 8, single: 6, withdraw: 6, swap: 9, route: 7, misc: 4, bad: 3 },
         simple_routes: false,
         max_ops_quick: 60,
@@ -45,8 +45,8 @@ pub fn pool_engine() -> PoolHist {
 
 pub fn farm_engine() -> FarmHist {
     FarmHist {
-        name: "fuzz-farm-custody-rewards",
-        mon: FMon { c05: true, c06: true, c20: true, ..FMon::default() },
+        name: "fuzz-farm-history",
+        mon: crate::props::farm_hist::all_mon(),
         weights: FWeights::default(),
         max_ops_quick: 60,
         max_ops_thorough: 60,
@@ -94,13 +94,13 @@ pub fn dump_corpus(which: &str, n: usize, dir: &str, seed: u64) -> std::io::Resu
 
 /// a panic of the interpreter itself (not of a contract: those are caught where the message is
 /// executed) means the input is outside what the interpreter was written for; it is skipped
-pub fn run_pool_backing(case: &PoolCase) -> Result<(), String> {
+pub fn run_pool_history(case: &PoolCase) -> Result<(), String> {
     let mut st = Stats::default();
     st.frozen = true;
     std::panic::catch_unwind(std::panic::AssertUnwindSafe(|| pool_engine().run(case, &mut st))).unwrap_or(Ok(()))
 }
 
-pub fn run_farm_custody_rewards(case: &FarmCase) -> Result<(), String> {
+pub fn run_farm_history(case: &FarmCase) -> Result<(), String> {
     let mut st = Stats::default();
     st.frozen = true;
     std::panic::catch_unwind(std::panic::AssertUnwindSafe(|| farm_engine().run(case, &mut st))).unwrap_or(Ok(()))
